@@ -73,6 +73,9 @@ class SimSlave:
         self.listen_responses: list[dict] = []    # every listen response sent (t, session, serials)
         self.value_log: dict[str, list] = {}      # per port: successive values (consecutive duplicates removed)
         self.trace: list = []                     # what reaches the master, in order: ('deliver'|'fail', t, method, path, body, code, resp)
+        self.slow: dict[str, str] = {}            # port id -> 'later' | 'never': value writes are answered 202
+        self.fail_next: set[str] = set()          # port ids whose next PATCH (attributes or value) answers 502
+        self.pusher = None                        # pushed-events mode: callable(event json) posting to the master
         self._flush_scheduled = False
         self._serial = 0
         SIMS[self.host] = self
@@ -188,6 +191,8 @@ class SimSlave:
                 self.overflowed = True
             s.queue.insert(0, ev)
         self._schedule_flush()
+        if self.pusher is not None:
+            self.pusher({'type': type_, 'params': copy.deepcopy(params)} if params else {'type': type_})
 
     overflowed = False
 
@@ -298,6 +303,9 @@ class SimSlave:
             if method == 'PATCH':
                 if not isinstance(body, dict):
                     return 400, {'error': 'malformed-body'}
+                if pid in self.fail_next:
+                    self.fail_next.discard(pid)
+                    return 502, {'error': 'port-error', 'code': 'injected'}
                 p = self.ports[pid]
                 for k in body:
                     if k not in PORT_MODIFIABLE and not p['definitions'].get(k, {}).get('modifiable'):
@@ -327,6 +335,15 @@ class SimSlave:
                     return 400, {'error': 'port-disabled'}
                 if not p['attrs'].get('writable'):
                     return 400, {'error': 'read-only-port'}
+                if pid in self.fail_next:
+                    self.fail_next.discard(pid)
+                    return 502, {'error': 'port-error', 'code': 'injected'}
+                if pid in self.slow:
+                    # slow actuator: the value is received but not applied right away (202 Accepted)
+                    if self.slow[pid] == 'later':
+                        asyncio.get_event_loop().call_later(
+                            0.7, lambda: pid in self.ports and self.set_value(pid, body))
+                    return 202, None
                 self.set_value(pid, body)
                 return 204, None
         if path in ('/webhooks', '/reverse'):
@@ -351,17 +368,20 @@ class _ConnLost(Exception):
     pass
 
 
-_LAST_DELIVERY = [0.0]
+_SCHEDULED: list = []          # instants at which something is already going to reach the master
 
 
 def _call_at_distinct_instant(loop, delay, fn):
-    """Answers reach the master at pairwise distinct virtual instants (>= 1 ms apart), so that the order in which
-    they are delivered is the order in which the master's coroutines process them (an answer passes through a different
-    number of event-loop hops depending on the caller)."""
-    target = loop.time() + delay
-    if target < _LAST_DELIVERY[0] + 0.001:
-        target = _LAST_DELIVERY[0] + 0.001
-    _LAST_DELIVERY[0] = target
+    """Answers and pushed events reach the master at pairwise distinct virtual instants (>= 1 ms apart), so that the
+    order in which they are delivered is the order in which the master's coroutines process them (an answer passes
+    through a different number of event-loop hops depending on the caller). A later-sent message may still overtake an
+    earlier one when its latency is smaller."""
+    now = loop.time()
+    _SCHEDULED[:] = [t for t in _SCHEDULED if t >= now - 0.01]
+    target = now + delay
+    while any(abs(target - t) < 0.0009 for t in _SCHEDULED):
+        target += 0.001
+    _SCHEDULED.append(target)
     loop.call_at(target, fn)
 
 
@@ -550,9 +570,30 @@ class Hub:
         params = {'scheme': 'http', 'host': sim.host, 'port': 80, 'path': '/', 'admin_password': ''}
         if mode == 'listen':
             params['listen_enabled'] = True
+        elif mode == 'push':
+            params['listen_enabled'] = False          # neither listened to nor polled: the device pushes its events
+            params['poll_interval'] = 0
         else:
             params['poll_interval'] = poll_interval
         return await self.api(self.api_devices.post_slave_devices, params, method='POST', path='/devices')
+
+    async def post_event(self, name: str, event: dict):
+        """What a device does with its events when the master neither listens nor polls: POST /devices/<name>/events,
+        signed with the device's admin password hash (device-origin token)."""
+        from qtoggleserver.core.api import auth as core_api_auth
+        slave = self.slaves_devices.get(name)
+        if slave is None:
+            return ('err', 404, 'no-such-device')
+        h = FakeHandler(self.core_api.ACCESS_LEVEL_NONE, 'POST', f'/devices/{name}/events')
+        h.request.headers = {'Authorization': core_api_auth.make_auth_header(
+            core_api_auth.ORIGIN_DEVICE, None, slave.get_admin_password_hash())}
+        try:
+            r = await asyncio.wait_for(self.api_devices.post_slave_device_events(h, name, event), 300)
+            return ('ok', r)
+        except asyncio.TimeoutError:
+            return ('err', 0, 'no-answer')
+        except self.core_api.APIError as e:
+            return ('err', e.status, e.code)
 
     async def remove_slave(self, name: str):
         return await self.api(self.api_devices.delete_slave_device, name, method='DELETE', path=f'/devices/{name}')
